@@ -111,6 +111,7 @@ Allowed(k, c, s) ==
   CASE s.t = "intact"         -> {"Same"}
     [] s.t = "wrongPassword"  -> {"Err"}
     [] s.t = "wrongUnwrapKey" -> {"Err"}
+    [] s.t \in {"rightAfterWrongPassword", "rightAfterWrongUnwrapKey"} -> {"Same"}     \* a refusal does not use the bytes up
     [] s.t = "injected"       -> {"Err"}
     [] s.t = "reencoded"      -> {"Same", "Err"}           \* a foreign encoding of the SAME key: the key or a refusal, never another key
     [] s.t = "tampered"       -> IF ~Authenticated(c) THEN Outcomes
@@ -144,19 +145,25 @@ InjectScalar(bad) ==
 Reencode ==
   /\ status.t = "intact" /\ outcome = "-" /\ cont.fmt \in {"SEC1", "PKCS8"} /\ key.cls \in {"hiByteZero", "one"}
   /\ status' = [S0 EXCEPT !.t = "reencoded"] /\ UNCHANGED <<key, cont, outcome>>
+(* after a refusal, the holder of the right secret decodes THE SAME BYTES (a parser that worked in place on its input, or kept   *)
+(* state from the failed attempt, shows here)                                                                                  *)
+RightSecretAfterwards ==
+  /\ status.t \in {"wrongPassword", "wrongUnwrapKey"} /\ outcome = "Err"
+  /\ status' = [status EXCEPT !.t = IF status.t = "wrongPassword" THEN "rightAfterWrongPassword" ELSE "rightAfterWrongUnwrapKey"]
+  /\ outcome' = "-" /\ UNCHANGED <<key, cont>>
 Parse(o) ==
   /\ status.t # "none" /\ outcome = "-" /\ o \in Allowed(key, cont, status)
   /\ outcome' = o /\ UNCHANGED <<key, cont, status>>
 
 (* ---- C14 on the model ---- *)
-RoundTrip           == (outcome # "-" /\ status.t = "intact") => outcome = "Same"
+RoundTrip           == (outcome # "-" /\ status.t \in {"intact", "rightAfterWrongPassword", "rightAfterWrongUnwrapKey"}) => outcome = "Same"
 NeverDifferent      == outcome = "Different" => (status.t = "tampered" /\ ~Authenticated(cont))
 AuthRejects         == (outcome # "-" /\ status.t = "tampered" /\ status.region \in Protected(cont)) => outcome = "Err"
 WrongSecretNeverKey == (outcome # "-" /\ status.t \in {"wrongPassword", "wrongUnwrapKey"}) => outcome = "Err"
 RangeRefused        == (outcome # "-" /\ status.t = "injected") => outcome = "Err"
 KcTypeOK == /\ key.kind \in Kinds \cup {"-"}
             /\ cont.fmt \in Fmts \cup {"-"}
-            /\ status.t \in {"none", "intact", "tampered", "wrongPassword", "wrongUnwrapKey", "injected", "reencoded"}
+            /\ status.t \in {"none", "intact", "tampered", "wrongPassword", "wrongUnwrapKey", "injected", "reencoded", "rightAfterWrongPassword", "rightAfterWrongUnwrapKey"}
             /\ outcome \in Outcomes \cup {"-"}
             /\ (cont.fmt # "-" => Applicable(key.kind, cont.fmt))
 =============================================================================
